@@ -554,6 +554,7 @@ impl St {
                 }))
             }
             "wopen" => self.op_wopen(a),
+            "wcreate" => self.op_wcreate(a),
             "wwrite" => {
                 need(a, 2)?;
                 let id = parse_id(a[0], 'W')?;
@@ -1320,6 +1321,60 @@ impl St {
                         cache: c,
                         key,
                         clock,
+                        tmp_new,
+                        tmp_before: before.len(),
+                    },
+                );
+                "ok".to_string()
+            }
+        })
+    }
+
+    /// `wcreate F C W KEY ALGO|-`: the constructors `Writer::create` / `create_with_algo` and their `SyncWriter` twins
+    /// (the same handle as `wopen F C W KEY algo=ALGO|-` with nothing else declared)
+    fn op_wcreate(&mut self, a: &[&str]) -> Result<String, Bad> {
+        need(a, 5)?;
+        let fl = parse_fl(a[0])?;
+        let c = parse_cache(a[1])?;
+        let id = parse_id(a[2], 'W')?;
+        let key = parse_utf8(a[3])?;
+        let o = parse_opts(&[&format!("algo={}", a[4])[..]], &["algo"])?;
+        let algo = o.algo;
+        if self.writers.contains_key(&id) {
+            return Err(Bad::Id);
+        }
+        let before = if fl == Fl::A {
+            tmp_names(&c)
+        } else {
+            BTreeSet::new()
+        };
+        let r: Result<cacache::Result<WK>, _> = catch_unwind(AssertUnwindSafe(|| {
+            flav!(fl,
+                match algo {
+                    Some(al) => cacache::SyncWriter::create_with_algo(al, &c, &key).map(WK::S),
+                    None => cacache::SyncWriter::create(&c, &key).map(WK::S),
+                };
+                match algo {
+                    Some(al) => cacache::Writer::create_with_algo(al, &c, &key).await.map(WK::A),
+                    None => cacache::Writer::create(&c, &key).await.map(WK::A),
+                })
+        }));
+        Ok(match r {
+            Err(_) => "panic".to_string(),
+            Ok(Err(e)) => lib_err(&e),
+            Ok(Ok(k)) => {
+                let tmp_new: Vec<String> = if fl == Fl::A {
+                    tmp_names(&c).difference(&before).cloned().collect()
+                } else {
+                    Vec::new()
+                };
+                self.writers.insert(
+                    id,
+                    WH {
+                        k,
+                        cache: c,
+                        key: Some(key),
+                        clock: true,
                         tmp_new,
                         tmp_before: before.len(),
                     },
